@@ -185,7 +185,7 @@ func c05RunTotal(m *xpath.Machine, in, grammar string, res *core.CaseResult) {
 			res.Fail("C05/run-panic/escaped-Run", in, mode+": "+o.Panic)
 			continue
 		}
-		for _, e := range []string{o.NumErr, o.StrErr, o.BoolErr} {
+		for _, e := range []string{o.NumErr, o.StrErr, o.BoolErr, o.NodeSetErr} {
 			if strings.HasPrefix(e, "panic: ") {
 				res.Fail("C05/accessor-panic", in, mode+": "+e)
 			}
